@@ -156,7 +156,7 @@ def vbRecord (s : RegState) (id key : Nat) (r : Rec) (owner : AddrTok) : M Unit 
 def recordWrk (s : RegState) (nowSec : Nat) (m : RegMeta) (height : Nat) (r : Rec) : RegState :=
   let id := m.id
   let rec' : Rec := { r with key := height, subTime := nowSec }
-  let s1 := { s with recs := AL.insert s.recs (id, height) rec' }
+  let s1 := { s with recs := insertRec s.recs (id, height) rec' }
   let num1 := addU64 m.num 1
   let deleteHeight := m.lowest
   let lowest1 := if m.lowest = 0 then height else m.lowest
@@ -173,7 +173,7 @@ def recordWrk (s : RegState) (nowSec : Nat) (m : RegMeta) (height : Nat) (r : Re
 def recordBcn (s : RegState) (m : RegMeta) (hash : String) (submitTime : Nat) : RegState × Nat :=
   let id := m.id
   let tsid := addU64 m.last 1
-  let s1 := { s with recs := AL.insert s.recs (id, tsid) { key := tsid, h0 := hash, subTime := submitTime } }
+  let s1 := { s with recs := insertRec s.recs (id, tsid) { key := tsid, h0 := hash, subTime := submitTime } }
   let last1 := if tsid > m.last then tsid else m.last
   let first1 := if m.lowest = 0 then tsid else m.lowest
   let num1 := addU64 m.num 1
